@@ -62,7 +62,7 @@ func checkRoundTrip(c boxprop.Case) *harness.Fail {
 	}
 	d2, err := boxprop.Decode(out1, c.Level, c.Path)
 	if err != nil || d2.Nil() {
-		if err != nil && strings.Contains(err.Error(), "offset from saio") && largeBeforeSenc(in) {
+		if err != nil && strings.Contains(err.Error(), "offset from saio") && sencMoved(in, out1) {
 			// a box in front of the senc data shrank (64-bit size header written compactly, surplus bytes dropped)
 			// and the absolute saio offset, which the library never recomputes outside EncryptFragment, went stale
 			return harness.Failf("C01|moof|saio offset stale after a size normalisation in front of senc: output rejected", "%v\n out %s", err, harness.HexTrunc(out1, 200))
@@ -119,40 +119,35 @@ func topType(in []byte) string {
 
 var digits = regexp.MustCompile(`[0-9]+`)
 
-// largeBeforeSenc reports whether some moof of the input holds a non-mdat box with a 64-bit size header (the
-// moof or traf itself, or a box in front of the senc box): the library writes such a box with the compact
-// header, which moves the senc data by 8 bytes.
-func largeBeforeSenc(in []byte) bool {
-	tree, _ := boxwalk.WalkAll(in)
-	var rec func(bs []*boxwalk.Box, inMoof bool, limit int) bool
-	rec = func(bs []*boxwalk.Box, inMoof bool, limit int) bool {
-		for _, b := range bs {
-			if b.Type == "moof" {
-				lim := -1
-				for _, s := range boxwalk.Flatten([]*boxwalk.Box{b}) {
-					if (s.Type == "senc" || s.Type == "uuid") && s.Start > lim {
-						lim = s.Start
-					}
-				}
-				if lim >= 0 && (b.Large || rec(b.Children, true, lim)) {
-					return true
-				}
+// sencMoved reports whether some senc box lies at another distance from the start of its moof in the output than
+// in the input: a box in front of it was re-encoded with another length (64-bit size header written compactly,
+// surplus bytes of a non-pristine box dropped), which is what makes an absolute saio offset go stale.
+func sencMoved(in, out []byte) bool {
+	dist := func(data []byte) []int {
+		tree, _ := boxwalk.WalkAll(data)
+		var d []int
+		for _, b := range boxwalk.Flatten(tree) {
+			if b.Type != "moof" {
 				continue
 			}
-			if inMoof {
-				if b.Start <= limit && b.Large && b.Type != "mdat" {
-					return true
+			for _, s := range boxwalk.Flatten([]*boxwalk.Box{b}) {
+				if s.Type == "senc" || s.Type == "uuid" {
+					d = append(d, s.PayloadStart()-b.Start)
 				}
-				if rec(b.Children, true, limit) {
-					return true
-				}
-			} else if rec(b.Children, false, limit) {
-				return true
 			}
 		}
-		return false
+		return d
 	}
-	return rec(tree, false, -1)
+	a, b := dist(in), dist(out)
+	if len(a) != len(b) {
+		return true
+	}
+	for i := range a {
+		if a[i] != b[i] {
+			return true
+		}
+	}
+	return false
 }
 
 func errClass(err error) string {
